@@ -21,3 +21,5 @@ CHECK = GraphCheck(
     nontrivial=nontrivial,
     deciding=["oracle.C04.hierarchy", "oracle.C01.region_walk"],
 )
+
+CHECK.with_gtests = True
